@@ -71,23 +71,28 @@ def verify(name, src, run_tests=True):
 
 
 def run(name, checks, tier):
+    """runs the checks against a scratch worktree carrying the patch (VMC_REPO), so /repo itself is never touched
+    while other runs may be importing it; equivalent to `git -C /repo apply` + run + `git -C /repo checkout -- .`"""
     d = os.path.join(SEEDED, name)
     patch = os.path.join(d, "patch.diff")
-    rc, out = sh("git -C /repo status --short")
-    assert out.strip() == "", "/repo not clean: " + out
-    rc, out = sh("git -C /repo apply %s" % patch)
+    wt = "/tmp/sw-%s" % name
+    sh("git -C /repo worktree remove --force %s" % wt)
+    rc, out = sh("git -C /repo worktree add -q --detach %s HEAD" % wt)
+    assert rc == 0, out
+    rc, out = sh("git apply %s" % patch, cwd=wt)
     assert rc == 0, out
     verdicts = {}
     try:
         for c in checks:
             t0 = time.time()
-            rc, out = sh("./check %s --tier %s" % (c, tier), cwd=VERIF, timeout=7200)
+            rc, out = sh("VMC_REPO=%s VMC_EVIDENCE_DIR=/tmp/sw-evidence VMC_REPLAY_DIR=/tmp/sw-replays ./check %s --tier %s" % (wt, c, tier),
+                         cwd=VERIF, timeout=7200)
             nv = sum(1 for ln in out.splitlines() if ln.startswith("VIOLATION"))
             first = next((ln for ln in out.splitlines() if ln.startswith("  kind=")), "")
             verdicts[c] = {"exit": rc, "violations": nv, "wall_s": round(time.time() - t0, 1), "first": first[:300]}
             print(name, c, verdicts[c], flush=True)
     finally:
-        sh("git -C /repo checkout -- .")
+        sh("git -C /repo worktree remove --force %s" % wt)
     meta = json.load(open(os.path.join(d, "meta.json")))
     meta.setdefault("checks_run", {}).setdefault(tier, {}).update(verdicts)
     meta["detected_by"] = sorted({c for t in meta["checks_run"].values() for c, v in t.items() if v["exit"] == 1})
